@@ -85,6 +85,22 @@ fn perturbed<R>(depth: u32, f: &mut dyn FnMut() -> R) -> R {
     r
 }
 
+/// Fixed use pattern: multi-block encrypt, single-block decrypt, buffer-to-buffer encrypt, a longer batch.
+fn use_instance(t: &TypeInfo, p: *const u8) {
+    let bs = t.block;
+    let mut a = vec![0u8; 24 * bs];
+    let mut b = vec![0u8; 24 * bs];
+    for (i, x) in a.iter_mut().enumerate() {
+        *x = (i * 7 + 3) as u8;
+    }
+    for (dir, shape, n) in [(Dir::Enc, Shape::Blocks, 3usize), (Dir::Dec, Shape::Block, 1), (Dir::Enc, Shape::BlockB2b, 1), (Dir::Dec, Shape::BlocksB2b, 23), (Dir::Enc, Shape::BlocksInout, 10)] {
+        if let Some(f) = t.call(dir) {
+            let (pa, pb) = (a.as_mut_ptr(), b.as_mut_ptr());
+            let _ = if shape.disjoint_only() { guard(|| unsafe { f(p, shape, pa as *const u8, pb, n) }) } else { guard(|| unsafe { f(p, shape, pa as *const u8, pa, n) }) };
+        }
+    }
+}
+
 fn read_slot(p: *const u8, n: usize) -> Vec<u8> {
     (0..n).map(|i| unsafe { core::ptr::read_volatile(p.add(i)) }).collect()
 }
@@ -98,7 +114,7 @@ pub struct Calib {
 struct Engine<'a> {
     reg: &'a Registry,
     anchors: &'a Anchors,
-    calib: HashMap<(usize, bool, usize), Calib>,
+    calib: HashMap<(usize, bool, usize, bool), Calib>,
     probes: Vec<u8>,
 }
 
@@ -161,8 +177,11 @@ impl<'a> Engine<'a> {
         live
     }
 
-    fn calibrate(&mut self, ty: usize, mask: bool, klen: usize) -> &Calib {
-        if !self.calib.contains_key(&(ty, mask, klen)) {
+    /// `used`: calibrate on instances that have been used (fixed calls) before they are read, so that
+    /// key-dependent state deposited inside the instance by a call (a cached batch, a scratch buffer)
+    /// belongs to the alarm set of used instances
+    fn calibrate(&mut self, ty: usize, mask: bool, klen: usize, used: bool) -> &Calib {
+        if !self.calib.contains_key(&(ty, mask, klen, used)) {
             let t = self.reg.types[ty].clone();
             cpufeatures::sim::bump_epoch();
             cpufeatures::sim::set_mask(mask);
@@ -179,6 +198,9 @@ impl<'a> Engine<'a> {
                 for ctx in 0..3u32 {
                     match self.build_plain(&mut slots, &t, key, ctx + ki as u32 % 2, [0x00, 0xFF, 0xA5][ctx as usize]) {
                         Some(s) => {
+                            if used {
+                                use_instance(&t, slots.ptr(s));
+                            }
                             images.push(read_slot(slots.ptr(s), t.size));
                             let p = slots.ptr(s);
                             let _ = guard(|| unsafe { (t.drop)(p) });
@@ -227,9 +249,9 @@ impl<'a> Engine<'a> {
             }
             let mut live: Vec<usize> = live_set.into_iter().collect();
             live.sort();
-            self.calib.insert((ty, mask, klen), Calib { k, live });
+            self.calib.insert((ty, mask, klen, used), Calib { k, live });
         }
-        &self.calib[&(ty, mask, klen)]
+        &self.calib[&(ty, mask, klen, used)]
     }
 
     /// Run one case; returns (residue bytes of the dropped storage, type actually dropped)
@@ -299,6 +321,12 @@ impl<'a> Engine<'a> {
                 }
             }
         }
+        if c.used {
+            // the same fixed use pattern the calibration applies
+            if let Some(r) = w.insts.get(&target).and_then(|i| i.reals.first()).cloned() {
+                use_instance(&reg.types[r.ty], w.slots.ptr(r.slot));
+            }
+        }
         if c.relocate {
             let _ = w.apply(&Op::Relocate { id: target, task: 0, off: c.off });
         }
@@ -345,7 +373,7 @@ struct Outcome {
 
 fn judge(e: &mut Engine, c: &Case) -> Result<Outcome, String> {
     let (residue, dty) = e.run_case(c)?;
-    let cal = e.calibrate(dty, c.mask, c.key.len());
+    let cal = e.calibrate(dty, c.mask, c.key.len(), c.used);
     let live_nonzero: Vec<usize> = cal.live.iter().copied().filter(|&i| residue[i] != 0).collect();
     let kdep_nonzero: Vec<usize> = cal.k.iter().copied().filter(|&i| residue[i] != 0).collect();
     let live: HashSet<usize> = cal.live.iter().copied().collect();
